@@ -8,11 +8,12 @@ rd = lambda n: open(os.path.join(here, n)).read()
 m = open(os.path.join(verif, 'seeded', 'MATRIX.md')).read()
 rows = [l for l in m.split('\n') if l.startswith('| C')]
 caught = sum(1 for r in rows if '| caught |' in r)
+caught_other = sum(1 for r in rows if '| caught by ' in r)
 table = "| seed | result | rule and construct reported |\n|---|---|---|\n"
 for r in rows:
     c = [x.strip() for x in r.strip('|').split('|')]
     table += f"| {c[0]} | {c[2]} | {c[3]} |\n"
-table += f"\n{caught} of {len(rows)} confirmed seeded changes are caught by the registered quick check of their property.\n"
+table += f"\n{caught} of {len(rows)} confirmed seeded changes are caught by the registered quick check of their own property, {caught_other} more by the check of another property (a change usually breaks more than one), {len(rows) - caught - caught_other} are missed.\n"
 doc = rd('00_header.md') + rd('10_stance.md').rstrip('\n') + '\n\n' + rd('20_machinery.md').rstrip('\n') + '\n\n' + rd('30_properties.md').rstrip('\n') + '\n\n' + rd('40_tail.md').replace('@@MATRIX@@', table)
 open(os.path.join(verif, 'DESIGN.md'), 'w').write(doc)
 print(len(doc.split('\n')), 'lines')
